@@ -22,6 +22,7 @@ CHECKS = {
  "C12": "Weekday encoders/decoder executed on a symbolic single day, a set with 7 free membership bits, lists/tuples of symbolic days and a symbolic mask; bit-exactness, rejection and the round trip are refuted per path.",
  "C13": "pretty_next_run is executed per (zone, day set) with symbolic start digits, clock instant and zone row; the text is compared with the earliest-occurrence rule on the LOCAL weekday and minute.",
  "C14": "calc_duration executed on symbolic digits: all 1440 x 1440 pairs per digit shape in one run.",
+ "C15": "build_command / build_swing_command run on an arbitrary valid remote state (one presence bit per key of the key universe, code texts of symbolic length, symbolic min/max/target) per discrete request; the result must be the first present key of the reference chain with a little-endian length; capabilities are checked on every IR set of n waves over a representative key list.",
  "C16": "control_breeze_device is executed per (subset of given settings, remote kind, update flag, faulty step) with the current-state reply, requested values, sessions and IR texts symbolic and the remote replaced by a recording stub; merged values, frame contents, swing command and fault outcomes are refuted per path.",
  "C17": "Every sequence of up to n bridge actions (start, stop, enter, exit, send, occupy, release, cycle) over a stub event loop; the action of each step is a solver variable; after each step the running flag, the set of listening ports and the callbacks are checked against the life-cycle automaton.",
  "C18": "Every sequence of up to n client actions (connect, refused connect, operation, failing operation, disconnect, async-with variants) over stub streams for both API types; connected flag and open sockets are checked after each step.",
